@@ -15,7 +15,9 @@ import common, gen, configs
 LEVEL = "proof"
 THEOREMS = ["Mistune.escape_no_specials", "Mistune.safeEntity_no_specials", "Mistune.escapeUrl_attr_safe", "Mistune.quote_ok", "Mistune.escape_eq_flatMap",
             "Mistune.templates_ok", "Mistune.templates_none_opaque", "Mistune.evalPieces_safe", "Mistune.evalTmpl_safe", "Mistune.renderTok_safe", "Mistune.render_safe",
-            "Mistune.evalTmpl_tagged", "Mistune.renderTok_tagged", "Mistune.render_tagged", "Mistune.templates_tagOk", "Mistune.templates_nodup", "Mistune.tagTable_wf", "Mistune.templateIntArgs_eq"]
+            "Mistune.evalTmpl_tagged", "Mistune.renderTok_tagged", "Mistune.render_tagged", "Mistune.templates_tagOk", "Mistune.templates_nodup", "Mistune.tagTable_wf", "Mistune.templateIntArgs_eq",
+            # striptags: the regenerated regex IS the expected term (kernel-decided) and on well-tagged strings it equals the tag scanner's projection (proved)
+            "Mistune.striptagsRx_is_expected", "Mistune.stripAgrees_expected", "Mistune.stripAgrees_generated", "Mistune.render_tagged_closed"]
 
 CANARIES = ['onq9=1//', 'a"onq9="1', '<xq9 onq9=1//', 'R&D<xq9', '5" onq9="1', '<xq9 yq9="1">', '"><xq9 onq9="1">', "'><xq9>", '" onq9="1', "</p><xq9>", "-->", "<!--", "<script>xq9</script>", "&lt;xq9&gt;", '\\"<xq9>', "`<xq9>`", "javascript:xq9"]
 # free-text fields of tokens (data that comes verbatim from the input); alphabet-restricted fields (ruby raw/rt, heading id,
